@@ -727,6 +727,25 @@ func argLists(fs fSpec, maxLen int, kindsN int, emit func(args []cty.Value, kind
 	rec(0, nil, nil)
 }
 
+// argListsK is argLists over an explicit list of argument kinds.
+func argListsK(fs fSpec, maxLen int, ks []int, emit func(args []cty.Value, kinds []int)) {
+	var rec func(i int, args []cty.Value, kinds []int)
+	rec = func(i int, args []cty.Value, kinds []int) {
+		emit(append([]cty.Value(nil), args...), append([]int(nil), kinds...))
+		if i == maxLen {
+			return
+		}
+		p, ok := paramFor(fs, i)
+		if !ok {
+			return
+		}
+		for _, k := range ks {
+			rec(i+1, append(args, mkArg(k, p)), append(kinds, k))
+		}
+	}
+	rec(0, nil, nil)
+}
+
 // c10Histories: one function value, one caller-owned argument slice that is refilled between
 // calls, every ordered pair of argument lists (all 10 argument kinds per position); each call is
 // validated against the automaton exactly like a first call.  The implementation callback makes
@@ -934,6 +953,33 @@ func runC10(c *Ctx) {
 					u.Sample(map[string]string{"family": "B", "parameters": p1.String() + " , " + p2.String()})
 				}
 			})
+		}
+	}
+	// family B': marks in positional and variadic arguments of one call (argument kinds conforming /
+	// marked / deep-marked / marked-unknown only, up to two variadic arguments), over a reduced constraint set
+	{
+		red := []pSpec{{0, 0}, {0, 15}, {0, 8}, {0, 2}, {1, 0}, {1, 4}, {1, 15}, {2, 0}, {2, 8}}
+		mk := []int{0, 6, 7, 8}
+		for _, p1 := range red {
+			for _, p2 := range red {
+				p1, p2 := p1, p2
+				c.Unit(func(u *U) {
+					for _, vp := range varps[1:] {
+						for _, cb := range [][2]int{{cbOK, implOK}, {cbDyn, implBad}} {
+							for np := 1; np <= 2; np++ {
+								fs := fSpec{params: []pSpec{p1, p2}[:np], varp: vp, tcb: cb[0], icb: cb[1], refine: true}
+								argListsK(fs, np+2, mk, func(args []cty.Value, kinds []int) {
+									if len(args) <= np {
+										return
+									}
+									u.DistinctN(1)
+									c10Check(u, fs, args, kinds)
+								})
+							}
+						}
+					}
+				})
+			}
 		}
 	}
 	if c.Thorough {
